@@ -1,5 +1,5 @@
 """C03 — see DESIGN.md section 3."""
-from mc import pool, words
+from mc import pool, words, parser_engine as E
 from . import parser_common as PC
 
 ORACLES = ["c03"]
@@ -11,9 +11,97 @@ def run(tier, seed):
     results += pool.run_tasks("checks.parser_common:valid_task", PC.valid_tasks(tier, seed, ORACLES, post="reuse"))
     results += pool.run_tasks("checks.parser_common:comment_task", PC.comment_tasks(tier, ORACLES))
     cov, viols, harness = PC.assemble(results)
+    from . import c04
+    maxlen, maxlines = (3, 2) if tier == "quick" else (4, 3)
+    r3 = pool.run_tasks("checks.c04:e3_task", [("str", i, maxlen, "c03") for i in range(len(c04.SLOTS))] + [("ml", i, maxlines, "c03") for i in range(len(c04.ML_SLOTS))])
+    n3 = sum(r["n"] for r in r3)
+    for r in r3:
+        viols.extend(r["violations"])
+    cov["transitions"] += n3
+    cov["traces_validated_against_impl"] += n3
+    cov["evaluations"] += n3
+    cov["states"] += sum(r["acc"] for r in r3)
+    cov["value_product"] = dict(chars=c04.CHARS, max_len=maxlen, ml_lines=c04.ML_LINES, ml_max_lines=maxlines, cases=n3,
+                                slots=[s[0] for s in c04.SLOTS] + [s[0] for s in c04.ML_SLOTS], exhaustive=True)
+    lt = [(m, L, S) for m in ("bytes", "str", "file") for L in LINE_LENGTHS for S in ladder_sizes(tier)]
+    rl = pool.run_tasks("checks.c03:ladder_task", sorted(lt, key=lambda t: -t[2]))
+    nl = sum(r["n"] for r in rl)
+    for r in rl:
+        viols.extend(r["violations"])
+    cov["transitions"] += nl
+    cov["traces_validated_against_impl"] += nl
+    cov["evaluations"] += nl
+    cov["size_ladder"] = dict(sizes=ladder_sizes(tier), line_lengths=list(LINE_LENGTHS), modes=["bytes", "str", "file"], executions=nl,
+                              rule="scripts of n commands with n*L just under / at / just over each size; result must hold all n commands")
     viols = [v for v in viols if v["property"] == "C03"]
     return dict(violations=viols, coverage=cov, harness_errors=harness, assumptions=PC.ASSUMPTIONS)
 
 
+# ---------------------------------------------------------------------------------------------
+# E3: size ladder - scripts just under / at / just over every power of two and of ten, through parse(bytes), parse(str)
+# and parse_file; the result must hold every command of the script (the last one is the only "stop")
+
+LINE_LENGTHS = (5, 8, 32)
+
+
+def ladder_sizes(tier):
+    top2, top10 = (21, 6) if tier == "quick" else (23, 7)
+    return sorted({2 ** k for k in range(10, top2 + 1)} | {10 ** k for k in range(3, top10 + 1)})
+
+
+def ladder_script(n, L):
+    pad = "" if L == 5 else " #" + "x" * (L - 8) + "\n"
+    return ("keep;" + pad) * (n - 1) + "stop;" + pad
+
+
+def ladder_case(mode, L, n):
+    import os
+    import tempfile
+    text = ladder_script(n, L)
+    path = None
+    try:
+        if mode == "file":
+            fd, path = tempfile.mkstemp(prefix="verif_c03_", suffix=".sieve")
+            with os.fdopen(fd, "w") as f:
+                f.write(text)
+            o = E.seams.run_parse(text, via_file=path, want_tree=False, keep_parser=True)
+        else:
+            o = E.seams.run_parse(text.encode() if mode == "bytes" else text, want_tree=False, keep_parser=True)
+    finally:
+        if path:
+            os.unlink(path)
+    if o.verdict != "ACC":
+        # a refusal of a valid script is C01's business, not a misrepresentation
+        return "C01: %d commands (%d bytes) through %s: %s" % (n, len(text), mode, o.brief()[:120])
+    res = o.parser.result
+    names = [getattr(c, "name", None) for c in res]
+    if len(res) != n or names[-1:] != ["stop"] or names.count("keep") != n - 1:
+        return "%d commands (%d bytes) through %s accepted, result holds %d commands ending in %r" % (n, len(text), mode, len(res), names[-1:])
+    return None
+
+
+def ladder_task(t):
+    mode, L, S = t[:3]
+    prop = t[3] if len(t) > 3 else "C03"
+    viols = []
+    n_exec = 0
+    for n in sorted({max(1, S // L - 1), max(1, S // L), S // L + 1, S // L + 2}):
+        n_exec += 1
+        bad = ladder_case(mode, L, n)
+        if bad and bad.startswith("C01:") != (prop == "C01"):
+            bad = None
+        if bad:
+            viols.append({"property": prop, "engine": "parser", "signature": [prop, "size-ladder", mode, "line%d" % L, "S=%d" % S],
+                          "what": bad, "case": {"ladder": [mode, L, n]}, "witness": "ladder_script(%d, %d) via %s" % (n, L, mode), "observed": bad})
+    return dict(n=n_exec, violations=viols)
+
+
 def replay(payload):
+    if payload.get("case", {}).get("ladder"):
+        mode, L, n = payload["case"]["ladder"]
+        bad = ladder_case(mode, L, n)
+        prop = payload["signature"][0]
+        if bad and bad.startswith("C01:") != (prop == "C01"):
+            bad = None
+        return [{"property": prop, "signature": payload["signature"], "what": bad, "witness": payload.get("witness"), "observed": bad}] if bad else []
     return PC.replay_text(payload, ORACLES)
